@@ -922,3 +922,68 @@ Proof.
   intros fuel. induction ops as [|o r IH]; intros G H; simpl in *; auto.
   apply andb_prop in H. destruct H as [A B]. split; [apply op_legal2b_sound; exact A | apply IH; exact B].
 Qed.
+
+(* ------------------------------------------------------------------ deciding AllClosed (for examples) *)
+
+Definition ref_eqb (a b : ref) : bool :=
+  match a, b with
+  | RS x, RS y => Nat.eqb x y
+  | RC p i, RC q j => Nat.eqb p q && Nat.eqb i j
+  | _, _ => false
+  end.
+
+Lemma ref_eqb_eq : forall a b, ref_eqb a b = true -> a = b.
+Proof.
+  intros [x|p i] [y|q j] H; simpl in H; try discriminate.
+  - apply Nat.eqb_eq in H. congruence.
+  - apply andb_prop in H. destruct H as [A B]. apply Nat.eqb_eq in A. apply Nat.eqb_eq in B. congruence.
+Qed.
+
+Definition memref (r : ref) (l : list ref) : bool := existsb (ref_eqb r) l.
+
+Lemma memref_In : forall r l, memref r l = true -> In r l.
+Proof.
+  intros r l H. apply existsb_exists in H. destruct H as (x & Hin & He). apply ref_eqb_eq in He. subst. exact Hin.
+Qed.
+
+Definition is_done (s : fstate) : bool := match s with FDone => true | _ => false end.
+
+Fixpoint all_closedb (n : nat) (G : state) (r : ref) {struct n} : bool :=
+  match n with
+  | O => false
+  | S n' =>
+    existsb (fun H => h_live H && h_closed H && memref r (refs (h_rd H))) (st_handles G)
+    || existsb (fun F => is_done (f_st F) && memref r (refs (f_src F))) (st_fwds G)
+    || existsb (fun qQ => memref r (refs (p_src (snd qQ)))
+                          && forallb (fun j => all_closedb n' G (RC (fst qQ) j)) (seq 0 (List.length (p_cur (snd qQ)))))
+               (combine (seq 0 (List.length (parents (st_store G)))) (parents (st_store G)))
+  end.
+
+Lemma in_combine_seq_nth : forall A (l : list A) a q x, In (q, x) (combine (seq a (List.length l)) l) ->
+  a <= q /\ nth_error l (q - a) = Some x.
+Proof.
+  induction l as [|y l IH]; intros a q x H; simpl in H; [contradiction|].
+  destruct H as [H|H].
+  - inversion H; subst. rewrite Nat.sub_diag. auto.
+  - apply IH in H. destruct H as [L E]. split; [lia|].
+    replace (q - a) with (S (q - S a)) by lia. exact E.
+Qed.
+
+Lemma all_closedb_sound : forall n G r, all_closedb n G r = true -> AllClosed G r.
+Proof.
+  induction n as [|n IH]; intros G r H; [discriminate|].
+  cbn [all_closedb] in H. apply orb_prop in H. destruct H as [H|H]; [apply orb_prop in H; destruct H as [H|H]|].
+  - apply existsb_exists in H. destruct H as (Hd & Hin & Hb).
+    apply andb_prop in Hb. destruct Hb as [Hb Hm]. apply andb_prop in Hb. destruct Hb as [Hl Hc].
+    apply In_nth_error in Hin. destruct Hin as [h Hh].
+    eapply AC_h; eauto. apply memref_In; exact Hm.
+  - apply existsb_exists in H. destruct H as (F & Hin & Hb).
+    apply andb_prop in Hb. destruct Hb as [Hd Hm].
+    apply In_nth_error in Hin. destruct Hin as [k Hk].
+    eapply AC_f; eauto; [destruct (f_st F); simpl in Hd; auto; discriminate | apply memref_In; exact Hm].
+  - apply existsb_exists in H. destruct H as ([q Q] & Hin & Hb). simpl in Hb.
+    apply andb_prop in Hb. destruct Hb as [Hm Hall].
+    apply in_combine_seq_nth in Hin. destruct Hin as [_ HQ]. rewrite Nat.sub_0_r in HQ.
+    eapply AC_p; eauto; [apply memref_In; exact Hm|].
+    intros j Hj. apply IH. rewrite forallb_forall in Hall. apply Hall. apply in_seq. lia.
+Qed.
